@@ -229,6 +229,13 @@ type Map[K comparable, V any] struct {
 	m sync.Map
 }
 
+// cast returns x as a T. A nil x - the value sync.Map reports for an absent key, or a stored nil
+// interface value - comes out as the zero value of T instead of failing the type assertion.
+func cast[T any](x interface{}) T {
+	t, _ := x.(T)
+	return t
+}
+
 func (m *Map[K, V]) Delete(key K) {
 	m.m.Delete(key)
 }
@@ -238,7 +245,7 @@ func (m *Map[K, V]) Load(key K) (value V, ok bool) {
 		var zero V
 		return zero, false
 	}
-	return value_.(V), ok
+	return cast[V](value_), ok
 }
 func (m *Map[K, V]) LoadAndDelete(key K) (value V, loaded bool) {
 	value_, ok := m.m.LoadAndDelete(key)
@@ -246,15 +253,15 @@ func (m *Map[K, V]) LoadAndDelete(key K) (value V, loaded bool) {
 		var zero V
 		return zero, false
 	}
-	return value_.(V), ok
+	return cast[V](value_), ok
 }
 func (m *Map[K, V]) LoadOrStore(key K, value V) (actual V, loaded bool) {
 	actual_, loaded := m.m.LoadOrStore(key, value)
-	return actual_.(V), loaded
+	return cast[V](actual_), loaded
 }
 func (m *Map[K, V]) Range(f func(key K, value V) bool) {
 	m.m.Range(func(key, value interface{}) bool {
-		return f(key.(K), value.(V))
+		return f(cast[K](key), cast[V](value))
 	})
 }
 func (m *Map[K, V]) Store(key K, value V) {
